@@ -3,6 +3,7 @@ package harness
 import (
 	"context"
 	"fmt"
+	"os"
 	"time"
 
 	"github.com/hslam/rpc"
@@ -102,6 +103,7 @@ func (w *World) RunConnWorld() {
 }
 
 func (w *World) teardown() {
+	w.TearingDown = true
 	// release NoAnswer handlers, close connections and servers, let things settle
 	w.collectSignals()
 	w.shutdown = true
@@ -111,6 +113,9 @@ func (w *World) teardown() {
 			c.Close()
 		}
 	}
+	// let the peers see the end of their connections before the servers are shut down
+	// (server shutdown with live connections is a fault of its own: closeserver/killserver)
+	simrt.Sleep(2*w.P.Net.MaxLatency + time.Second)
 	for i, s := range w.Servers {
 		if s != nil && w.ServerUp[i] {
 			s.Close()
@@ -120,6 +125,9 @@ func (w *World) teardown() {
 	w.collectSignals()
 	w.SimEnd = simrt.Now()
 	w.LiveAtEnd = simrt.Live()
+	if os.Getenv("VERIF_DEBUG") == "2" && len(w.LiveAtEnd) > 0 {
+		fmt.Fprintln(os.Stderr, simrt.AllStacks())
+	}
 	for _, c := range w.Calls {
 		if c.errObj != nil {
 			c.ErrAtEnd = c.errObj.Error()
@@ -566,6 +574,7 @@ func (w *World) streamOp(ci int, conn *rpc.Conn, op *Op) {
 			rec.ClientBlocked = false
 			if err != nil {
 				rec.ClientReadErr = err.Error()
+				rec.ReadErrAtTeardown = w.TearingDown
 				return
 			}
 			if int(m.Server) != op.Stream {
